@@ -325,6 +325,7 @@ func Main(tier, replay string) {
 			return strings.Join(ks, ",")
 		}
 		capped := false
+		cappedDepth2 := false
 		for d := 1; d <= bound; d++ {
 			var next []task
 			var jobs []task
@@ -334,6 +335,40 @@ func Main(tier, replay string) {
 						continue
 					}
 					alts, all := alternatives(pt.N)
+					if d >= 2 && pt.N > 2 {
+						// second deviating point: adjacent transpositions (they generate every permutation), reversal, rotations
+						alts = nil
+						id := make([]int, pt.N)
+						for i := range id {
+							id[i] = i
+						}
+						for i := 0; i+1 < pt.N; i++ {
+							p := append([]int(nil), id...)
+							p[i], p[i+1] = p[i+1], p[i]
+							alts = append(alts, permIndex(p))
+						}
+						rev := make([]int, pt.N)
+						for i := range rev {
+							rev[i] = pt.N - 1 - i
+						}
+						alts = append(alts, permIndex(rev))
+						if !cappedDepth2 {
+							cappedDepth2 = true
+							run.Cap("with two deviating points, each point is explored with adjacent transpositions and the reversal only (all permutations with one deviating point)")
+						}
+					}
+					if d >= 2 && len(t.choices) > 0 {
+						// the first deviating point of a pair is likewise restricted to the generator subset
+						skip := false
+						for k, v := range t.choices {
+							if !isGenerator(traces[""], k, v) {
+								skip = true
+							}
+						}
+						if skip {
+							continue
+						}
+					}
 					if !all && !capped {
 						capped = true
 						run.Cap(fmt.Sprintf("a choice point with %d elements (%s) is explored with adjacent transpositions, reversal and rotations only", pt.N, pt.Site))
@@ -479,4 +514,33 @@ func trunc(s string) string {
 		return s[:110]
 	}
 	return s
+}
+
+// isGenerator reports whether permutation index v at call idx is an adjacent transposition or the reversal.
+func isGenerator(pts []point, idx, v int) bool {
+	n := 0
+	for _, p := range pts {
+		if p.Idx == idx {
+			n = p.N
+		}
+	}
+	if n == 0 {
+		return false
+	}
+	id := make([]int, n)
+	for i := range id {
+		id[i] = i
+	}
+	for i := 0; i+1 < n; i++ {
+		p := append([]int(nil), id...)
+		p[i], p[i+1] = p[i+1], p[i]
+		if permIndex(p) == v {
+			return true
+		}
+	}
+	rev := make([]int, n)
+	for i := range rev {
+		rev[i] = n - 1 - i
+	}
+	return permIndex(rev) == v
 }
